@@ -2,7 +2,7 @@
 (src/resources/{mod,find,group,art}.rs, Pe::resources)."""
 import re
 from .props import Prop, spec_field, klass
-from . import gen_res
+from . import gen_res, gen_walk
 
 
 def strip_refs(s):
@@ -20,7 +20,7 @@ class C12(Prop):
     pid = "C12"
     title = "resource tree traversal, lookup and reassembly reflect the stored directory"
     thm_modules = ["PeliteModel.Thm.C12"]
-    gens = [gen_res.gen_wellformed, gen_res.gen_corrupt, gen_res.gen_small]
+    gens = [gen_res.gen_wellformed, gen_res.gen_corrupt, gen_res.gen_small, gen_walk.gen_shared_dag]
 
     def oracle(self, op, impl, model, spec):
         w = want(op)
